@@ -16,14 +16,18 @@ def parseTz : String → Option Bool
       `aware v`  → `makeAware v`
       `c18 v`    → `patch v | makeAware (patch v) | AllDates Normal v | AllDates AwareUtc v |
                     the milliseconds (UTC) of the datetimes of v in document order`
-      `aggpipe T|F v` → `aggPipeline tz v | AllDates (ReadForm tz) (aggPipeline tz v) |
+      `aggpipe v` → `aggPipeline v | AllDates Normal (aggPipeline v)`
+                    (what `Collection.aggregate` hands `process_pipeline` for the pipeline `v`,
+                    whatever the client's tz_aware)
+      `aggres T|F v` → `aggResult tz v | AllDates (ReadForm tz) (aggResult tz v) |
                     AllDates (ReadForm tz) v`
-                    (what `Collection.aggregate` hands `process_pipeline` for the pipeline `v`; the
-                    last field ties the predicate `ReadForm` to the harness oracle on raw values)
-      `cmpdate T|F stored literal` → for each of `$eq $ne $gt $gte $lt $lte`, separated by `|`:
-                    `compareOp op (readDoc tz (patch stored)) (aggPipeline tz literal)` — an
-                    expression comparison between a field holding `stored` and the value `literal`
-                    written in the pipeline -/
+                    (what the caller gets for the results `v` of `process_pipeline`; the last
+                    field ties the predicate `ReadForm` to the harness oracle on raw values)
+      `cmpdate a b` → for each of `$eq $ne $gt $gte $lt $lte`, separated by `|`:
+                    `compareOp op (aggInput (patch a)) (aggPipeline b)` — an expression comparison
+                    between a field holding `a` and the value `b` written in the pipeline (or
+                    computed by it: a naive datetime of whole milliseconds is its own prepared
+                    form) -/
 def handleC18 (ts : List String) : Option (List String) :=
   match ts with
   | "patch" :: r =>
@@ -41,24 +45,29 @@ def handleC18 (ts : List String) : Option (List String) :=
         ++ showBool (allDatesB normalB v) ++ ["|"] ++ showBool (allDatesB awareUtcB v) ++ ["|"]
         ++ (datesOf v).map (fun d => toString (msOf d.1 d.2)))
     | _ => some ["?parse"]
-  | "aggpipe" :: tz :: r =>
+  | "aggpipe" :: r =>
+    match parseVal r with
+    | some (v, []) =>
+      some (showVal (aggPipeline v) ++ ["|"] ++ showBool (allDatesB normalB (aggPipeline v)))
+    | _ => some ["?parse"]
+  | "aggres" :: tz :: r =>
     match parseTz tz, parseVal r with
     | some t, some (v, []) =>
-      some (showVal (aggPipeline t v) ++ ["|"]
-        ++ showBool (allDatesB (readFormB t) (aggPipeline t v)) ++ ["|"]
+      some (showVal (aggResult t v) ++ ["|"]
+        ++ showBool (allDatesB (readFormB t) (aggResult t v)) ++ ["|"]
         ++ showBool (allDatesB (readFormB t) v))
     | _, _ => some ["?parse"]
-  | "cmpdate" :: tz :: r =>
-    match parseTz tz, parseVal r with
-    | some t, some (stored, r') =>
+  | "cmpdate" :: r =>
+    match parseVal r with
+    | some (stored, r') =>
       match parseVal r' with
       | some (lit, []) =>
-        let a := readDoc t (patch stored)
-        let b := aggPipeline t lit
+        let a := aggInput (patch stored)
+        let b := aggPipeline lit
         some (List.intercalate ["|"]
           (["$eq", "$ne", "$gt", "$gte", "$lt", "$lte"].map (fun op => showR showVal (Expr.compareOp op a b))))
       | _ => some ["?parse"]
-    | _, _ => some ["?parse"]
+    | _ => some ["?parse"]
   | _ => none
 
 end Driver
